@@ -1,4 +1,5 @@
 import LabtechModel.Proofs.Submit
+import LabtechModel.Proofs.InvMain
 /-!
 # C17 — Intermediate results live exactly as long as a dependent needs them
 
@@ -11,8 +12,15 @@ Proved here:
 * `captured_before_release`: a requested task's value is captured before its result can be released
   in the same step;
 * `result_kept_while_needed`: handling a yield never drops a result that `complete_task` did not report.
-The whole-run invariant `d ∈ results ↔ d succeeded ∧ some dependent unfinished` needs the dependency
-invariant; see DESIGN.md.
+Whole runs (every problem, configuration, cache pre-state, fuel and schedule; no hypothesis; from
+the master invariant of `Proofs/InvLoop.lean`), at every reachable loop head with status running:
+* `results_iff_needed`: the runner holds a result for `d` iff `d` was yielded successfully and some
+  task that directly depends on `d` has not been yielded yet; the held value is the yielded one
+  (`results_value`); keys are duplicate-free;
+* `needed_spec`: `pendDependents d` lists exactly the planned direct dependents of `d` that have not
+  been yielded;
+* `empty_at_return`: when `run_tasks` returns normally the runner holds no result at all (also when
+  tasks failed, under `continue_on_failure`).
 -/
 namespace Lt.Props.C17
 open Lt
@@ -98,5 +106,51 @@ example :
     (runLoop cfg exP [1, 2] [all, all, all] (initRS cfg exP [] 4)).results = [] ∧
     (run cfg exP [] 4 [all, all, all, all]).results = [] ∧
     (run cfg exP [] 4 [all, all, all, all]).status = .returned [(1, 1), (2, 2)] := by decide
+
+/-! ## whole runs -/
+
+/-- the value held for `d` is the value `d` was yielded with, and it is held exactly while needed -/
+theorem results_value (cfg : Config) (p : Problem) (store : Store) (fuel : Nat) (sched : List Choice) :
+    let rs := runLoop cfg p (reqTids p) sched (initRS cfg p store fuel)
+    rs.status = .running → ∀ d v,
+      ((d, v) ∈ rs.results ↔ (Ev.yield d (.ok v) ∈ rs.trace ∧ rs.ts.pendDependents d ≠ [])) :=
+  fun hrun d v => loopHead_results cfg p store fuel sched hrun d v
+
+theorem results_iff_needed (cfg : Config) (p : Problem) (store : Store) (fuel : Nat) (sched : List Choice) :
+    let rs := runLoop cfg p (reqTids p) sched (initRS cfg p store fuel)
+    rs.status = .running →
+      (∀ d, (∃ v, (d, v) ∈ rs.results) ↔ (d ∈ okYielded rs ∧ rs.ts.pendDependents d ≠ [])) ∧
+      (rs.results.map Prod.fst).Nodup := by
+  intro rs hrun
+  refine ⟨?_, ((reach_all cfg p store fuel sched).2 hrun).resNd⟩
+  intro d
+  simp only [okYielded, mem_okYieldedOf]
+  constructor
+  · rintro ⟨v, hv⟩
+    have := (loopHead_results cfg p store fuel sched hrun d v).mp hv
+    exact ⟨⟨v, this.1⟩, this.2⟩
+  · rintro ⟨⟨v, hv⟩, hne⟩
+    exact ⟨v, (loopHead_results cfg p store fuel sched hrun d v).mpr ⟨hv, hne⟩⟩
+
+/-- who still needs `d`: the planned direct dependents of `d` that have not been yielded -/
+theorem needed_spec (cfg : Config) (p : Problem) (store : Store) (fuel : Nat) (sched : List Choice) (d t : Tid) :
+    let rs := runLoop cfg p (reqTids p) sched (initRS cfg p store fuel)
+    t ∈ rs.ts.pendDependents d ↔ (d ∈ (plan cfg p store fuel).ddeps t ∧ t ∉ yielded rs) :=
+  loopHead_pendDependents cfg p store fuel sched d t
+
+theorem empty_at_return (cfg : Config) (p : Problem) (store : Store) (fuel : Nat) (sched : List Choice)
+    (r : List (Tid × Val)) (h : (run cfg p store fuel sched).status = .returned r) :
+    (run cfg p store fuel sched).results = [] :=
+  run_empty_at_return cfg p store fuel sched r h
+
+/-- non-vacuity: after two waits of the diamond run, 0 is still held (2 needs it) together with 1
+    (3 needs it); a failed task holds nothing; at return nothing is held -/
+example :
+    let rs := runLoop invExCfg invExP (reqTids invExP) [chooseFirst, chooseFirst] (initRS invExCfg invExP [] 4)
+    rs.status = .running ∧ rs.results = [(1, 1000), (0, 0)] ∧ rs.ts.pendDependents 0 = [2] ∧
+    okYielded rs = [0, 1] ∧
+    (run invExCfg invExP [] 4 (List.replicate 5 chooseFirst)).status = .returned [(3, 6000), (1, 1000)] ∧
+    (run invExCfg { invExP with fails := fun t => t == 1 } [] 4 (List.replicate 5 chooseFirst)).status
+      = .returned [(3, 5007)] := by decide
 
 end Lt.Props.C17
